@@ -99,8 +99,13 @@ def run_workers(module, func, nworkers, seed, params, timeout=None):
             merged["samples"].extend(r["samples"][:1])
         merged["violations"].extend(r["violations"])
     build.rm_workdir(work)
-    if failed:
+    if failed and not merged["violations"]:
         raise build.Inconclusive(failed)
+    if failed:
+        # a violation found by one worker stands even if another worker could not finish (a hang is never reported as a
+        # violation itself, but it does not hide one either)
+        merged["extra"]["inconclusive-workers: " + failed] += 1
+        sys.stderr.write("note: %s; reporting the violations the other workers found\n" % failed)
     # de-duplicate violations by signature across workers
     seen, uniq = set(), []
     for v in merged["violations"]:
